@@ -9,6 +9,7 @@ use vstd::std_specs::cmp::OrdSpec;
 //@include prelude/btc.rs
 //@include frag/enforcement_types.rs
 //@include prelude/channel_deps.rs
+//@include prelude/ldk_tx.rs
 //@map /Weak<Node>/ => VxNodeRef
 //@map /Secp256k1<All>/ => VxSecp
 //@map /Arc<dyn Validator>/ => VxValidator
@@ -142,7 +143,111 @@ impl Channel {
         r.is_ok() ==> final(self).persisted@ == final(self).enforcement_state,                     //[C11.activate.persisted]
 //@end
 
+//@fn vls-core/src/channel.rs :: impl Channel :: counterparty_pubkeys props=C01
+    ensures ldk_counterparty_pubkeys(self.keys).is_some(), *r == ldk_counterparty_pubkeys(self.keys)->Some_0,
+//@end
+
+//@fn vls-core/src/channel.rs :: impl Channel :: build_holder_commitment_info props=C01
+    ensures r.is_ok(), info2_built(r->Ok_0, false, to_counterparty_value_sat, to_holder_value_sat, offered_htlcs@, received_htlcs@, feerate_per_kw),
+//@end
+
+//@fn vls-core/src/channel.rs :: impl Channel :: htlcs_info2_to_oic props=C01,C04
+    requires htlcs_msat_fit(offered_htlcs@), htlcs_msat_fit(received_htlcs@),
+    ensures r@ == oic_spec(offered_htlcs@, received_htlcs@),                                         //[C04.oic.exact]
+//@loop 1 iter=it1
+        invariant htlcs@ == offered_htlcs@.take(it1.index@ as int).map(|i: int, h: HTLCInfo2| oic_of(h, true)),
+            htlcs_msat_fit(offered_htlcs@),
+//@loop 2 iter=it2
+        invariant htlcs@ == offered_htlcs@.map(|i: int, h: HTLCInfo2| oic_of(h, true))
+                + received_htlcs@.take(it2.index@ as int).map(|i: int, h: HTLCInfo2| oic_of(h, false)),
+            htlcs_msat_fit(received_htlcs@),
+//@proof before /for htlc in received_htlcs/
+        proof {
+            assert(offered_htlcs@.take(offered_htlcs@.len() as int) == offered_htlcs@);
+            assert(htlcs@ =~= offered_htlcs@.map(|i: int, h: HTLCInfo2| oic_of(h, true))
+                + received_htlcs@.take(0).map(|i: int, h: HTLCInfo2| oic_of(h, false)));
+        }
+//@proof before /^\s*htlcs\s*$/
+        proof { assert(received_htlcs@.take(received_htlcs@.len() as int) == received_htlcs@); }
+//@end
+
+//@fn vls-core/src/channel.rs :: impl Channel :: check_holder_tx_signatures props=C01
+    ensures
+        r.is_ok() ==> holder_sigs_valid(self.keys, self.setup, *per_commitment_point, *txkeys, feerate_per_kw, *counterparty_commit_sig,
+            counterparty_htlc_sigs@, recomposed_tx),                                                 //[C01.check-sigs.all-verify]
+//@loop 1 iter=it
+        invariant
+            it.snapshot.end == ctx_htlcs(recomposed_tx).len(),
+            forall|i: int| 0 <= i < ndx ==> htlc_sig_valid(self.keys, self.setup, *per_commitment_point, *txkeys, feerate_per_kw, recomposed_tx, i, counterparty_htlc_sigs@[i]),
+            ndx <= ctx_htlcs(recomposed_tx).len(), ndx <= counterparty_htlc_sigs@.len(),
+            ecdsa_valid(message_of_digest(sighash_p2wsh(ctx_built_tx(recomposed_tx), 0,
+                funding_redeemscript(ldk_pubkeys(self.keys).funding_pubkey, self.setup.counterparty_points.funding_pubkey),
+                self.setup.channel_value_sat, EcdsaSighashType::All)), *counterparty_commit_sig, self.setup.counterparty_points.funding_pubkey),
+            commitment_txid == ctx_txid(recomposed_tx), to_self_delay == self.setup.counterparty_selected_contest_delay,
+            htlc_pubkey == derived_public_key(*per_commitment_point, ldk_counterparty_pubkeys(self.keys)->Some_0.htlc_basepoint.0),
+            sig_hash_type == (if setup_is_anchors(self.setup) { EcdsaSighashType::SinglePlusAnyoneCanPay } else { EcdsaSighashType::All }),
+            build_feerate == (if setup_is_zero_fee_htlc(self.setup) { 0u32 } else { feerate_per_kw }),
+            features == setup_features(self.setup),
+//@sub /&counterparty_htlc_sigs\[ndx\]/ => vx_index(counterparty_htlc_sigs, ndx)
+//@end
+
+//@fn vls-core/src/channel.rs :: impl Channel :: validate_holder_commitment_tx_phase2 props=C01,C02,C10,C11
+    requires
+        commitment_number <= INITIAL_COMMITMENT_NUMBER, chan_wf(*old(self)), hc_inv(*old(self)),
+        htlcs_msat_fit(offered_htlcs@), htlcs_msat_fit(received_htlcs@),
+    ensures
+        chan_static_eq(*final(self), *old(self)), hc_inv(*final(self)),                               //[C01.validate-holder.keeps-inv]
+        // the only field that may change is the stored successor, and only for the next number
+        final(self).enforcement_state == (EnforcementState {
+            next_holder_commit_info: final(self).enforcement_state.next_holder_commit_info, ..old(self).enforcement_state }),   //[C10.validate-holder.frame]
+        final(self).enforcement_state.next_holder_commit_info != old(self).enforcement_state.next_holder_commit_info ==>
+            r.is_ok() && commitment_number == old(self).enforcement_state.next_holder_commit_num,    //[C01.validate-holder.only-next]
+        // C02: no new holder state is accepted once a holder signature was released
+        r.is_ok() && vx_strict(T_policy_commitment_spends_active_utxo) && old(self).enforcement_state.channel_closed ==>
+            final(self).enforcement_state.next_holder_commit_info == old(self).enforcement_state.next_holder_commit_info,   //[C02.validate-holder.closed-no-new-state]
+        r.is_err() ==> final(self).enforcement_state == old(self).enforcement_state
+            && final(self).persisted == old(self).persisted,                                          //[C10.validate-holder.err-frame]
+        r.is_ok() ==> final(self).persisted@ == final(self).enforcement_state,                        //[C11.validate-holder.persisted]
+//@proof after /let counterparty_signatures = CommitmentSignatures\(/
+            proof {
+                assert(counterparty_signatures.1@ =~= counterparty_htlc_sigs@);
+                assert(counterparty_signatures.0 == *counterparty_commit_sig);
+            }
+//@proof before /let htlcs = Self::htlcs_info2_to_oic/
+        proof {
+            lemma_msat_fit_multiset(offered_htlcs@, info2.offered_htlcs@);
+            lemma_msat_fit_multiset(received_htlcs@, info2.received_htlcs@);
+        }
+//@end
+
+//@fn vls-core/src/channel.rs :: impl Channel :: sign_holder_commitment_tx_phase2 props=C02,C10,C11
+    requires commitment_number <= INITIAL_COMMITMENT_NUMBER, chan_wf(*old(self)), hc_inv(*old(self)),
+        old(self).enforcement_state.current_holder_commit_info.is_some() ==>
+            htlcs_msat_fit(old(self).enforcement_state.current_holder_commit_info->Some_0.offered_htlcs@)
+            && htlcs_msat_fit(old(self).enforcement_state.current_holder_commit_info->Some_0.received_htlcs@),
+    ensures
+        chan_static_eq(*final(self), *old(self)), hc_inv(*final(self)),
+        // C02: only the current holder commitment (never a revoked one) is signed, and the channel is closed with it
+        r.is_ok() && vx_strict(T_policy_other) ==> commitment_number + 1 == old(self).enforcement_state.next_holder_commit_num,   //[C02.sign-holder.is-current]
+        r.is_ok() ==> final(self).enforcement_state == (EnforcementState { channel_closed: true, ..old(self).enforcement_state }),  //[C02.sign-holder.marks-closed]
+        r.is_err() ==> final(self).enforcement_state == old(self).enforcement_state
+            && final(self).persisted == old(self).persisted,                                          //[C10.sign-holder.err-frame]
+        r.is_ok() ==> final(self).persisted@ == final(self).enforcement_state,                        //[C11.sign-holder.persisted]
+//@end
+
 } // impl Channel
+
+impl ChannelSetup {
+//@fn vls-core/src/channel.rs :: impl ChannelSetup :: is_anchors props=C01
+    ensures r == setup_is_anchors(*self),
+//@end
+//@fn vls-core/src/channel.rs :: impl ChannelSetup :: is_zero_fee_htlc props=C01
+    ensures r == setup_is_zero_fee_htlc(*self),
+//@end
+//@fn vls-core/src/channel.rs :: impl ChannelSetup :: features mode=trusted
+    ensures r == setup_features(*self),
+//@end
+}
 
 impl ChannelStub {
 //@fn vls-core/src/channel.rs :: impl ChannelBase for ChannelStub :: get_per_commitment_secret props=C01
